@@ -77,7 +77,7 @@ func (s *srcImporter) load(path string) (*types.Package, error) {
 	var files []*ast.File
 	for _, e := range ents {
 		n := e.Name()
-		if e.IsDir() || !strings.HasSuffix(n, ".go") || strings.HasSuffix(n, "_test.go") || strings.HasPrefix(n, "verif_") {
+		if e.IsDir() || !productFile(filepath.Join(dir, n)) {
 			continue
 		}
 		f, err := parser.ParseFile(s.fset, filepath.Join(dir, n), nil, parser.SkipObjectResolution)
